@@ -419,9 +419,38 @@ func runPol(toks []string) (string, string) {
 }
 
 // ---------- C08 ----------
+// repairSensitive: a warc-fields block with syntax problems whose repaired form has the same
+// length, and the digest of the repaired form (what a record declares after it was repaired once)
+func repairSensitive(r *rand.Rand) (block, repaired []byte) {
+	for k := 1 + r.Intn(3); k > 0; k-- {
+		name := pick(r, []string{"x", "ab", "software", "q"})
+		val := pick(r, []string{"y", "1", "two words", "v=1"})
+		block = append(block, (name + ":  " + val + "\n")...)
+		repaired = append(repaired, (strings.ToUpper(name[:1]) + name[1:] + ": " + val + "\r\n")...)
+	}
+	return
+}
+
 func genCoh(r *rand.Rand, n int, tier string, out *bufio.Writer) {
 	for i := 0; i < n; i++ {
 		o := genOpts(r)
+		if r.Intn(12) == 0 {
+			// repair-sensitive input: acceptance depends on whether the block gets repaired
+			o.fixWF, o.spec, o.skip = 1, 1+r.Intn(2), 0
+			blk, rep := repairSensitive(r)
+			dig := refDigest(pick(r, algs), 1+r.Intn(3), rep)
+			if r.Intn(2) == 0 {
+				fields := [][2]string{{"WARC-Type", pick(r, []string{"warcinfo", "metadata"})}, {"WARC-Record-ID", "<urn:uuid:00000000-0000-0000-0000-00000000aaaa>"},
+					{"WARC-Date", "2021-05-06T07:08:09Z"}, {"Content-Type", "application/warc-fields"},
+					{"Content-Length", strconv.Itoa(len(blk))}, {"WARC-Block-Digest", dig}}
+				fmt.Fprintf(out, "coh %s p 0 %s\n", o, hx(serializeRecord("1.1", fields, blk, "\r\n")))
+			} else {
+				g := genRecord{rt: pick(r, []int{1, 16}), body: blk, fields: [][2]string{{"WARC-Date", "2021-05-06T07:08:09Z"},
+					{"Content-Type", "application/warc-fields"}, {"WARC-Block-Digest", dig}}}
+				fmt.Fprintf(out, "coh %s b %s\n", o, strings.TrimPrefix(fmtBuildCase(ropts{}, g, splitFeeds(r, g.body)), "build "+ropts{}.String()+" "))
+			}
+			continue
+		}
 		if r.Intn(2) == 0 {
 			data := damagedStream(r)
 			if r.Intn(3) == 0 {
@@ -445,9 +474,11 @@ func runCoh(toks []string) (string, string) {
 	}
 	defer os.RemoveAll(dir)
 	var run func(o ropts) (isErr bool, nf int, p string)
+	wfBlock := false // the record has a warc-fields block
 	if t.next() == "p" {
 		gz := t.nextInt() == 1
 		data := t.nextHex()
+		wfBlock = strings.Contains(strings.ToLower(string(data)), "application/warc-fields")
 		if gz {
 			data = gzipMember(data)
 		}
@@ -472,6 +503,9 @@ func runCoh(toks []string) (string, string) {
 		var fields [][2]string
 		for i := 0; i < nfl; i++ {
 			fields = append(fields, [2]string{t.nextStr(), t.nextStr()})
+			if strings.Contains(strings.ToLower(fields[i][1]), "application/warc-fields") {
+				wfBlock = true
+			}
 		}
 		var feeds [][2]string
 		for k := t.nextInt(); k > 0; k-- {
@@ -531,6 +565,11 @@ func runCoh(toks []string) (string, string) {
 				return "PANIC", "FAIL:panic:" + p
 			}
 			errs[l] = e
+		}
+		if axis == 0 && base.fixWF == 1 && wfBlock && errs[0] && !errs[1] && errs[2] {
+			// known finding: a warc-fields block is only repaired when the syntax policy makes its
+			// problems visible, so warn accepts (after the repair) what ignore rejects
+			return obs, fmt.Sprintf("FAIL:wfblock-repair-nonmonotone:axis 0 with the warc-fields block repair on: %v", errs)
 		}
 		if (errs[0] && !errs[1]) || (errs[1] && !errs[2]) || (errs[0] && !errs[2]) {
 			return obs, fmt.Sprintf("FAIL:policy-incoherent:axis %d: rejected under a lenient level but accepted under a stricter one %v", axis, errs)
